@@ -281,3 +281,25 @@ Proof.
   split; [reflexivity|]. split; [exact Flg|]. split; [exact Fsh|]. split; [split; assumption|]. split; [split; assumption|].
   unfold D. split; [eapply Rle_trans; [exact Elg|lra]|eapply Rle_trans; [exact Esh|lra]].
 Qed.
+
+(* non-vacuity: ordinary bars and the multipliers 2 and -2.5 meet every hypothesis of the KeltnerChannel / ChandelierExit error theorems *)
+Definition ex_bars : list (Bar float) :=
+  [mkBar 10.5%float 12%float 9.25%float 11%float 1000%float; mkBar 11%float 11.5%float 10%float 10.75%float 500%float].
+Lemma FR_lit_bound (x : float) B : finF x -> Rabs (FR x) <= B -> okin B x. Proof. intros; split; assumption. Qed.
+Example kc_ce_hypotheses_example :
+  (exists k, kc_new O 10 2%float = Ok k) /\ (exists c, ce_new O 22 3%float = Ok c) /\
+  Forall (okbar3 100) ex_bars /\ Forall okF (map b_high ex_bars) /\ Forall okF (map b_low ex_bars) /\
+  finF 2%float /\ Rabs (FR 2%float) <= 3 /\ finF (-2.5)%float /\ Rabs (FR (-2.5)%float) <= 3 /\
+  1 <= 100 /\ 4 * (1 + 3) * 100 <= bpow radix2 900.
+Proof.
+  assert (L : forall x : float, finF x -> Rabs (FR x) <= 100 -> okin 100 x) by (intros; split; assumption).
+  split; [eexists; reflexivity|]. split; [eexists; reflexivity|].
+  split.
+  { unfold ex_bars. repeat constructor; cbn [b_high b_low b_close]; try reflexivity;
+      unfold FR; cbn; unfold F2R; cbn; rewrite Rabs_pos_eq; lra. }
+  split; [unfold ex_bars; cbn [map b_high]; repeat constructor; vm_compute; reflexivity|].
+  split; [unfold ex_bars; cbn [map b_low]; repeat constructor; vm_compute; reflexivity|].
+  split; [reflexivity|]. split; [unfold FR; cbn; unfold F2R; cbn; rewrite Rabs_pos_eq; lra|].
+  split; [reflexivity|]. split; [unfold FR; cbn; unfold F2R; cbn; rewrite Rabs_left; lra|].
+  split; [lra|]. apply Rle_trans with (bpow radix2 11); [cbn; lra|apply bpow_le; lia].
+Qed.
